@@ -149,7 +149,15 @@ class SwapAnalysis(progcheck.ProgramAnalysis):
                 return path_wasm(it, ws)
             old = VmRun(it, pj_old)
             old.run_main()
-            old.state_words()[:] = [Sc('u64', w) for w in ws]
+            if an.pre_steps:
+                # history mode (programs whose state words are HANDLES -- array-valued `self` -- cannot start from arbitrary words):
+                # n real samples with symbolic inputs from the initial state, then the swap
+                for k in range(an.pre_steps):
+                    old.now[0] = Sc('u64', k)
+                    old.set_input([Sc('u64', z3.BitVec('pre_%d_%d' % (k, c), 64)) for c in range(pj_old['io']['input'])])
+                    old.run_dsp()
+            else:
+                old.state_words()[:] = [Sc('u64', w) for w in ws]
             snapshot = list(old.state_words())
             old_globals = list(old.field('global_vals').buf)
             # the runtime that is swapped shares the machine with `old`, which keeps running as the uninterrupted oracle;
@@ -186,8 +194,9 @@ class SwapAnalysis(progcheck.ProgramAnalysis):
             # the next sample: same transition as the un-swapped machine (C06) / untouched channels continue (C07)
             n_in_o, n_in_n = pj_old['io']['input'], pj_new['io']['input']
             ins = [Sc('u64', z3.BitVec('in_0_%d' % c, 64)) for c in range(max(n_in_o, n_in_n))]
-            now = Sc('u64', z3.BitVec('now0', 64))
-            it.smt.add(z3.ULT(now.v, 1 << 52))
+            now = Sc('u64', z3.BitVec('now0', 64)) if not an.pre_steps else Sc('u64', an.pre_steps)
+            if not an.pre_steps:
+                it.smt.add(z3.ULT(now.v, 1 << 52))
             old.now[0] = now
             newrun.now[0] = now
             old.set_input(ins[:n_in_o])
@@ -203,7 +212,7 @@ class SwapAnalysis(progcheck.ProgramAnalysis):
                 return nstate[i] if i < len(nstate) else Sc('u64', 0)
             if same_src:
                 # C06: nothing may change
-                for i in range(size_old):
+                for i in range(min(size_old, len(snapshot)) if an.pre_steps else size_old):
                     an.require_equal(it, nw(i), snapshot[i], 'state word %d changed by swapping to the same program' % i)
                 return
             ro, rn = child_ranges(skel_old), child_ranges(skel_new)
@@ -259,7 +268,13 @@ class SwapAnalysis(progcheck.ProgramAnalysis):
             wj_old, wj_new = an.cj['wasm'], cj2['wasm']
             wold = WasmRun(it, wj_old)
             wold.run_main()
-            wold.host.state_words()[:] = [Sc('u64', w) for w in ws]
+            n_in_pre = wj_old['io']['input'] if wj_old.get('io') else 0
+            if an.pre_steps:
+                for k in range(an.pre_steps):
+                    wold.set_input([Sc('u64', z3.BitVec('pre_%d_%d' % (k, c), 64)) for c in range(n_in_pre)])
+                    wold.run_dsp(Sc('u64', k))
+            else:
+                wold.host.state_words()[:] = [Sc('u64', w) for w in ws]
             snapshot = list(wold.host.state_words())
             # the uninterrupted oracle keeps the old engine (try_hot_swap moves it to the retire channel, it is not dropped)
             worc = WasmRun.__new__(WasmRun)
@@ -316,8 +331,9 @@ class SwapAnalysis(progcheck.ProgramAnalysis):
             n_in_o = wj_old['io']['input'] if wj_old.get('io') else 0
             n_in_n = wj_new['io']['input'] if wj_new.get('io') else 0
             ins = [Sc('u64', z3.BitVec('in_0_%d' % c, 64)) for c in range(max(n_in_o, n_in_n))]
-            now = Sc('u64', z3.BitVec('now0', 64))
-            it.smt.add(z3.ULT(now.v, 1 << 52))
+            now = Sc('u64', z3.BitVec('now0', 64)) if not an.pre_steps else Sc('u64', an.pre_steps)
+            if not an.pre_steps:
+                it.smt.add(z3.ULT(now.v, 1 << 52))
             worc.set_input(ins[:n_in_o])
             _, o_old = worc.run_dsp(now)
             wold.set_input(ins[:n_in_n])
@@ -351,6 +367,14 @@ class SwapAnalysis(progcheck.ProgramAnalysis):
             self.result['panics'][-1]['variant'] = self.variant if self.backend == 'wasm' else None
             self.result['panics'][-1]['swap_verbatim'] = bool(getattr(self, 'cur_swap_verbatim', False))
             self.result['panics'][-1]['n_out'] = getattr(self, 'n_out_pair', None)
+            self.result['panics'][-1]['pre_steps'] = self.pre_steps
+            if self.pre_steps and f.model is not None:
+                n_in = self.pj['io']['input'] if self.pj.get('io') else 0
+                try:
+                    self.result['panics'][-1]['pre_inputs'] = [[f.model.eval(z3.BitVec('pre_%d_%d' % (k, c), 64), model_completion=True).as_long() for c in range(n_in)]
+                                                              for k in range(self.pre_steps)]
+                except Exception:
+                    self.result['panics'][-1]['pre_inputs'] = [[0] * n_in for _ in range(self.pre_steps)]
         if getattr(self, 'sparse', None) is not None and self.result['panics']:
             d = self.result['panics'][-1]
             init = d.get('init_state')
@@ -389,13 +413,25 @@ def confirm_swap(old_path, new_path, d, kept, new_voices, skel_ranges, backend='
     init = d.get('init_state')
     ins = d.get('inputs') or [[]]
     row = ins[0] if ins else []
-    base = dict(src_path=old_path, backend=backend, steps=1, inputs=[row], init_state=init, now_start=d.get('now0', 0), timeout_s=20)
+    pre = d.get('pre_steps') or 0
+    if pre:
+        # history mode: `pre` real samples from the initial state, the swap, one more sample
+        rows = list(d.get('pre_inputs') or [[] for _ in range(pre)]) + [row]
+        base = dict(src_path=old_path, backend=backend, steps=pre + 1, inputs=rows, now_start=0, timeout_s=20)
+    else:
+        base = dict(src_path=old_path, backend=backend, steps=1, inputs=[row], init_state=init, now_start=d.get('now0', 0), timeout_s=20)
     out = {}
     try:
         plain = common.replay(dict(base))[backend]
-        swapped = common.replay(dict(base, swaps=[dict(at_step=0, src_path=new_path, variant=variant)]))[backend]
+        swapped = common.replay(dict(base, swaps=[dict(at_step=pre, src_path=new_path, variant=variant)]))[backend]
     except Exception as e:
         return False, dict(error=repr(e))
+    if pre:
+        # compare the sample after the swap only
+        for t in (plain, swapped):
+            for k in ('outputs', 'state_after'):
+                if t.get(k):
+                    t[k] = t[k][pre:]
     out['plain'] = dict(outputs=plain.get('outputs'), state=plain.get('state_after'), panic=plain.get('panic'))
     out['swapped'] = dict(outputs=swapped.get('outputs'), state=swapped.get('state_after'), panic=swapped.get('panic'), swaps=swapped.get('swaps'))
     if swapped.get('panic') or swapped.get('crash'):
@@ -437,6 +473,13 @@ def run(tier, seed, pid='C06'):
     jobs = [('analysis', dict(cls=('checks.c06', 'SwapAnalysis'), path=f, mir_paths=mirs, steps=1, mode='inductive', backend=be, variant=var,
                               query_timeout_ms=qto, time_budget_s=budget, seed=seed)) for f in files for (be, var) in BACKENDS
             if be == 'vm' or '/corpus_large/' not in f]
+    sdir = os.path.join(common.VERIF, 'corpus_swap')      # programs whose state words are handles (array-valued `self`): history mode
+    if pid == 'C06' and os.path.isdir(sdir):
+        for fn in sorted(os.listdir(sdir)):
+            if fn.endswith('.mmm') and (not os.environ.get('VERIF_ONLY') or fn.startswith(tuple(os.environ['VERIF_ONLY'].split(',')))):
+                for (be, var) in BACKENDS:
+                    jobs.append(('analysis', dict(cls=('checks.c06', 'SwapAnalysis'), path=os.path.join(sdir, fn), mir_paths=mirs, steps=1, mode='inductive', backend=be, variant=var,
+                                                  pre_steps=2, query_timeout_ms=qto, time_budget_s=budget, seed=seed)))
     res = run_jobs(jobs)
     npaths = nchecks = 0
     for r in res:
@@ -449,7 +492,7 @@ def run(tier, seed, pid='C06'):
         for d in r.get('panics', []):
             if done:
                 break
-            if d['kind'] != 'swap':
+            if d['kind'] != 'swap' and not d.get('pre_steps'):
                 rep.inconclusive.append('%s: path ended by a crash obligation (%s): see C03' % (r['program'], d['msg'][:70]))
                 continue
             rep.replays += 1
